@@ -177,7 +177,7 @@ def one_run(world_name: str, prop: str, tier: str, seed: int, index: int, batch_
 
 def count_faults(schedule) -> int:
     n = 0
-    real = lambda fs: sum(1 for f in fs if not f.startswith("probe"))  # noqa: E731
+    real = lambda fs: sum(1 for f in fs if not (isinstance(f, str) and f.startswith("probe")))  # noqa: E731
     for op in schedule.get("ops", []):
         n += real(op.get("faults", []))
         for r in op.get("readings", []) or []:
